@@ -223,16 +223,67 @@ theorem go_some (s : St) (c : Cut) : ∀ (us : List Nat) (fs : List (Nat × List
       rw [ih _ _ hs', htw]
       simp only [writeAll_cons, List.mem_cons, hcu, false_or]
 
-theorem chkpnt_files_none (s : St) : (chkpnt s none).files = writeAll s (chkpntUsers s) s.files :=
-  go_none s _ _ _
+/-- the files of the users satisfying `p` -/
+theorem fileOf_filter (p : Nat → Bool) (fs : List (Nat × List DTask)) (u : Nat) :
+    fileOf (fs.filter (fun f => p f.1)) u = if p u = true then fileOf fs u else none := by
+  induction fs with
+  | nil => simp [fileOf_nil]
+  | cons f r ih =>
+    rw [List.filter_cons]
+    by_cases hp : p f.1 = true
+    · rw [if_pos hp, fileOf_cons, fileOf_cons, ih]
+      by_cases hfu : f.1 = u
+      · rw [if_pos hfu, if_pos hfu, if_pos (hfu ▸ hp)]
+      · rw [if_neg hfu, if_neg hfu]
+    · rw [if_neg hp, ih, fileOf_cons]
+      by_cases hfu : f.1 = u
+      · rw [if_neg (hfu ▸ hp), if_neg (hfu ▸ hp)]
+      · rw [if_neg hfu]
+
+theorem keys_filter (p : Nat → Bool) (fs : List (Nat × List DTask)) :
+    keys (fs.filter (fun f => p f.1)) = (keys fs).filter p := by
+  unfold keys
+  rw [List.filter_map]
+  rfl
+
+/-- a completed checkpoint: every user of the list is rewritten; the complete dump (16 entries) then removes
+the files of everybody else -/
+theorem chkpnt_files_none (s : St) : (chkpnt s none).files =
+    if 16 ≤ s.dirty.length then
+      (writeAll s (chkpntUsers s) s.files).filter (fun f => (chkpntUsers s).contains f.1)
+    else writeAll s (chkpntUsers s) s.files := by
+  unfold chkpnt
+  simp only [Option.isNone_none, and_true, ge_iff_le, go_none]
 
 theorem chkpnt_files_some (s : St) (c : Cut) : (chkpnt s (some c)).files =
     if c.u ∈ chkpntUsers s then
       (if c.afterRename then
         setFile (writeAll s ((chkpntUsers s).takeWhile (· != c.u)) s.files) c.u (tasksOf s c.u)
        else writeAll s ((chkpntUsers s).takeWhile (· != c.u)) s.files)
-    else writeAll s (chkpntUsers s) s.files :=
-  go_some s c _ _ [] (by simp)
+    else writeAll s (chkpntUsers s) s.files := by
+  unfold chkpnt
+  simp only [Option.isNone_some, Bool.false_eq_true, and_false, if_false]
+  exact go_some s c _ _ [] (by simp)
+
+/-- a completed checkpoint, file by file -/
+theorem fileOf_chkpnt_none (s : St) (u : Nat) : fileOf (chkpnt s none).files u =
+    if u ∈ chkpntUsers s then some (tasksOf s u)
+    else if 16 ≤ s.dirty.length then none else fileOf s.files u := by
+  rw [chkpnt_files_none]
+  by_cases hl : 16 ≤ s.dirty.length
+  · rw [if_pos hl, if_pos hl, fileOf_filter (fun v => (chkpntUsers s).contains v), fileOf_writeAll]
+    by_cases hm : u ∈ chkpntUsers s
+    · rw [if_pos (by simpa using hm), if_pos hm, if_pos hm]
+    · rw [if_neg (by simpa using hm), if_neg hm]
+  · rw [if_neg hl, if_neg hl, fileOf_writeAll]
+
+theorem keys_nodup_chkpnt {s : St} (hk : (keys s.files).Nodup) : (keys (chkpnt s none).files).Nodup := by
+  have hk' := keys_nodup_writeAll s (chkpntUsers s) s.files hk
+  rw [chkpnt_files_none]
+  split
+  · rw [keys_filter (fun v => (chkpntUsers s).contains v)]
+    exact hk'.filter _
+  · exact hk'
 
 theorem mem_takeWhile_ne {l : List Nat} {u v : Nat} (h : v ∈ l.takeWhile (· != u)) : v ∈ l ∧ v ≠ u := by
   induction l with
@@ -501,258 +552,4 @@ theorem reload_user {files : List (Nat × List DTask)} (h : FilesOK files) (hk :
   rw [tasksOf_snap h1, h2, List.filter_map]
   have : (fun sn : Snap => sn.owner == u) ∘ snapAt now = fun t => t.owner == u := rfl
   rw [this, filter_owner_flatMap files hk h.owner]
-
-/-! ### checkpoint, then restart -/
-
-/-- the file `f` agrees with the table of `s` on who owns what: its entries have distinct uids, ascending
-streams, and each names an in-table task of the file's user (e.g. `f.2 = tasksOf s f.1`, or an older
-snapshot of tasks that are all still there, or an empty file) -/
-def Current (s : St) (f : Nat × List DTask) : Prop :=
-  (f.2.map (·.uid)).Nodup ∧ ∀ ft ∈ f.2, ft.owner = f.1 ∧ ft.occ.Pairwise (· ≤ ·) ∧
-    ∃ t ∈ s.tasks, t.inTable = true ∧ t.uid = ft.uid ∧ t.owner = f.1
-
-theorem mem_tasksOf {s : St} {u : Nat} {t : DTask} :
-    t ∈ tasksOf s u ↔ t ∈ s.tasks ∧ t.inTable = true ∧ t.owner = u ∧ t.occ ≠ [] := by
-  unfold tasksOf
-  rw [List.mem_filter]
-  simp [and_assoc]
-
-theorem current_tasksOf {s : St} (h : Inv s) (u : Nat) : Current s (u, tasksOf s u) := by
-  refine ⟨?_, ?_⟩
-  · show ((tasksOf s u).map (·.uid)).Nodup
-    unfold List.Nodup
-    rw [List.pairwise_map]
-    have h1 : s.tasks.Pairwise (fun a b => a.sid ≠ b.sid) := by
-      have := h.sidU
-      unfold SidU List.Nodup at this
-      rwa [List.pairwise_map] at this
-    have h2 : (tasksOf s u).Pairwise (fun a b => a.sid ≠ b.sid) := h1.filter _
-    refine h2.imp_of_mem ?_
-    intro a b ha hb hne he
-    obtain ⟨a1, a2, _, _⟩ := mem_tasksOf.mp ha
-    obtain ⟨b1, b2, _, _⟩ := mem_tasksOf.mp hb
-    exact hne (by rw [h.uidU a a1 b b1 a2 b2 he])
-  · intro ft hft
-    obtain ⟨a1, a2, a3, _⟩ := mem_tasksOf.mp hft
-    exact ⟨a3, (h.tinv' a1).sorted, ft, a1, a2, rfl, a3⟩
-
-theorem current_empty (s : St) (u : Nat) : Current s (u, []) :=
-  ⟨List.nodup_nil, fun _ h => by cases h⟩
-
-theorem nodup_flatMap_uid : ∀ (F : List (Nat × List DTask)), (keys F).Nodup →
-    (∀ f ∈ F, (f.2.map (·.uid)).Nodup) →
-    (∀ f ∈ F, ∀ g ∈ F, ∀ a ∈ f.2, ∀ b ∈ g.2, a.uid = b.uid → f.1 = g.1) →
-    ((F.flatMap (·.2)).map (·.uid)).Nodup := by
-  intro F
-  induction F with
-  | nil => intro _ _ _; exact List.nodup_nil
-  | cons f r ih =>
-    intro hk hn hx
-    have hk' : f.1 ∉ keys r ∧ (keys r).Nodup := by
-      unfold keys at hk ⊢
-      rw [List.map_cons, List.nodup_cons] at hk
-      exact hk
-    rw [List.flatMap_cons, List.map_append, List.nodup_append]
-    refine ⟨hn f List.mem_cons_self, ?_, ?_⟩
-    · exact ih hk'.2 (fun g hg => hn g (List.mem_cons_of_mem _ hg))
-        (fun g hg g' hg' => hx g (List.mem_cons_of_mem _ hg) g' (List.mem_cons_of_mem _ hg'))
-    · intro x hxa y hyb e
-      rw [List.mem_map] at hxa hyb
-      obtain ⟨a, ha, rfl⟩ := hxa
-      obtain ⟨b, hb, hbe⟩ := hyb
-      rw [List.mem_flatMap] at hb
-      obtain ⟨g, hg, hbg⟩ := hb
-      have := hx f List.mem_cons_self g (List.mem_cons_of_mem _ hg) a ha b hbg (e.trans hbe.symm)
-      apply hk'.1
-      rw [this]
-      unfold keys
-      rw [List.mem_map]
-      exact ⟨g, hg, rfl⟩
-
-/-- a spool of current files with one file per user can be restored completely -/
-theorem FilesOK_of_current {s : St} (h : Inv s) (hu : s.users = ({ me := 0 } : St).users)
-    {F : List (Nat × List DTask)} (hk : (keys F).Nodup) (hc : ∀ f ∈ F, Current s f) : FilesOK F where
-  sorted := fun f hf t ht => ((hc f hf).2 t ht).2.1
-  owner := fun f hf t ht => ((hc f hf).2 t ht).1
-  known := by
-    intro f hf ft hft
-    obtain ⟨h1, _, t, ht, _, _, hto⟩ := (hc f hf).2 ft hft
-    have := (h.tinv' ht).owner_ok
-    rw [hu, hto, ← h1] at this
-    exact this
-  uids := by
-    apply nodup_flatMap_uid F hk (fun f hf => (hc f hf).1)
-    intro f hf g hg a ha b hb e
-    obtain ⟨_, _, t, ht, hti, htu, hto⟩ := (hc f hf).2 a ha
-    obtain ⟨_, _, t', ht', hti', htu', hto'⟩ := (hc g hg).2 b hb
-    have : t = t' := h.uidU t ht t' ht' hti hti' (by rw [htu, htu', e])
-    rw [← hto, ← hto', this]
-
-theorem mem_writeAll {s : St} {us : List Nat} {fs : List (Nat × List DTask)} (hk : (keys fs).Nodup)
-    {f : Nat × List DTask} (hf : f ∈ writeAll s us fs) :
-    (f.1 ∈ us ∧ f.2 = tasksOf s f.1) ∨ (f.1 ∉ us ∧ f ∈ fs) := by
-  have h1 := fileOf_of_mem (keys_nodup_writeAll s us fs hk) hf
-  rw [fileOf_writeAll] at h1
-  by_cases hm : f.1 ∈ us
-  · rw [if_pos hm] at h1
-    exact Or.inl ⟨hm, (Option.some.inj h1).symm⟩
-  · rw [if_neg hm] at h1
-    exact Or.inr ⟨hm, fileOf_mem h1⟩
-
-/-- after a completed checkpoint the spool can be restored completely, provided the files that are not
-rewritten are current -/
-theorem FilesOK_chkpnt {s : St} (h : Inv s) (hu : s.users = ({ me := 0 } : St).users)
-    (hk : (keys s.files).Nodup) (hc : ∀ f ∈ s.files, f.1 ∉ chkpntUsers s → Current s f) :
-    FilesOK (chkpnt s).files ∧ (keys (chkpnt s).files).Nodup := by
-  rw [chkpnt_files_none]
-  have hk' := keys_nodup_writeAll s (chkpntUsers s) s.files hk
-  refine ⟨FilesOK_of_current h hu hk' ?_, hk'⟩
-  intro f hf
-  rcases mem_writeAll hk hf with ⟨_, h2⟩ | ⟨h1, h2⟩
-  · have := current_tasksOf h f.1
-    rw [← h2] at this
-    exact this
-  · exact hc f h2 h1
-
-theorem snapAt_eq_snapOf {s : St} (h : Inv s) {u : Nat} {t : DTask} (ht : t ∈ tasksOf s u) :
-    snapAt s.now t = snapOf t := by
-  obtain ⟨a1, a2, _, _⟩ := mem_tasksOf.mp ht
-  unfold snapAt snapOf
-  have : t.occ.filter (fun o => decide (s.now ≤ o)) = t.occ := by
-    rw [List.filter_eq_self]
-    intro o ho
-    have := occ_ge_now (h.tinv' a1) a2 o ho
-    simpa using this
-  rw [this]
-
-theorem tasksOf_snapAt_now {s : St} (h : Inv s) (u : Nat) :
-    ((tasksOf s u).map (snapAt s.now)).filter (fun sn => !sn.occ.isEmpty) = (tasksOf s u).map snapOf := by
-  rw [List.map_congr_left (fun t ht => snapAt_eq_snapOf h ht), List.filter_eq_self]
-  intro sn hsn
-  rw [List.mem_map] at hsn
-  obtain ⟨t, ht, rfl⟩ := hsn
-  obtain ⟨_, _, _, a4⟩ := mem_tasksOf.mp ht
-  cases ho : t.occ with
-  | nil => exact absurd ho a4
-  | cons a r => simp [snapOf, ho]
-
-/-- checkpoint, stop, start again at the same clock value: the new daemon schedules for every rewritten
-user exactly what the old one had in its table for that user -/
-theorem chkpnt_reload_user {s : St} (h : Inv s) (hu : s.users = ({ me := 0 } : St).users)
-    (hk : (keys s.files).Nodup) (hc : ∀ f ∈ s.files, f.1 ∉ chkpntUsers s → Current s f)
-    {u : Nat} (hmem : u ∈ chkpntUsers s) :
-    (tasksOf (reload (chkpnt s).files 0 s.now) u).map snapOf = (tasksOf s u).map snapOf := by
-  obtain ⟨h1, h2⟩ := FilesOK_chkpnt h hu hk hc
-  rw [reload_user h1 h2 0 s.now (Or.inl rfl) u]
-  have hf : fileOf (chkpnt s).files u = some (tasksOf s u) := by
-    rw [chkpnt_files_none, fileOf_writeAll, if_pos hmem]
-  rw [hf, Option.getD_some, tasksOf_snapAt_now h]
-
-/-- … and for the users not rewritten what their (older) file says -/
-theorem chkpnt_reload_other {s : St} (h : Inv s) (hu : s.users = ({ me := 0 } : St).users)
-    (hk : (keys s.files).Nodup) (hc : ∀ f ∈ s.files, f.1 ∉ chkpntUsers s → Current s f)
-    (now : Nat) {u : Nat} (hmem : u ∉ chkpntUsers s) :
-    (tasksOf (reload (chkpnt s).files 0 now) u).map snapOf =
-      (((fileOf s.files u).getD []).map (snapAt now)).filter (fun sn => !sn.occ.isEmpty) := by
-  obtain ⟨h1, h2⟩ := FilesOK_chkpnt h hu hk hc
-  rw [reload_user h1 h2 0 now (Or.inl rfl) u]
-  have hf : fileOf (chkpnt s).files u = fileOf s.files u := by
-    rw [chkpnt_files_none, fileOf_writeAll, if_neg hmem]
-  rw [hf]
-
-/-- if moreover the files not rewritten are up to date, the new daemon has the old table, user by user -/
-theorem chkpnt_reload_all {s : St} (h : Inv s) (hu : s.users = ({ me := 0 } : St).users)
-    (hk : (keys s.files).Nodup)
-    (hsync : ∀ u, u ∉ chkpntUsers s →
-      fileOf s.files u = some (tasksOf s u) ∨ (fileOf s.files u = none ∧ tasksOf s u = []))
-    (u : Nat) :
-    (tasksOf (reload (chkpnt s).files 0 s.now) u).map snapOf = (tasksOf s u).map snapOf := by
-  have hc : ∀ f ∈ s.files, f.1 ∉ chkpntUsers s → Current s f := by
-    intro f hf hn
-    have h1 := fileOf_of_mem hk hf
-    rcases hsync f.1 hn with h2 | ⟨h2, _⟩
-    · rw [h1] at h2
-      have := current_tasksOf h f.1
-      rw [← Option.some.inj h2] at this
-      exact this
-    · rw [h1] at h2; cases h2
-  by_cases hm : u ∈ chkpntUsers s
-  · exact chkpnt_reload_user h hu hk hc hm
-  · rw [chkpnt_reload_other h hu hk hc s.now hm]
-    rcases hsync u hm with h2 | ⟨h2, h3⟩
-    · rw [h2, Option.getD_some, tasksOf_snapAt_now h]
-    · rw [h2, h3]; rfl
-
-/-! ### who is marked dirty -/
-
-theorem addChkpnt_dirty (s : St) (u : Nat) :
-    (addChkpnt s u).dirty = if s.dirty.length < 16 then s.dirty ++ [u] else s.dirty := by
-  unfold addChkpnt
-  split <;> rfl
-
-theorem unsched_dirty (s : St) (t : DTask) :
-    (unsched s t).dirty = if s.dirty.length < 16 then s.dirty ++ [t.owner] else s.dirty := by
-  show (addChkpnt s t.owner).dirty = _
-  exact addChkpnt_dirty s t.owner
-
-theorem applyInstr_dirty (s : St) (peer : Nat) (i : Instr) : (applyInstr s peer i).1.dirty = s.dirty := by
-  cases i with
-  | sched uid owner ms dur occ isTask =>
-    simp only [applyInstr]
-    rw [inject_eq]
-    unfold injectSpec
-    cases effOwner s owner peer with
-    | none => rfl
-    | some e =>
-      simp only [injectAs]
-      split
-      · rfl
-      · cases s.find uid with
-        | none => rfl
-        | some old =>
-          simp only []
-          split <;> rfl
-  | cancel uid =>
-    simp only [applyInstr, eject]
-    cases s.find uid with
-    | none => rfl
-    | some t =>
-      simp only []
-      split
-      · rfl
-      · split <;> rfl
-
-theorem applyAll_dirty (peer : Nat) : ∀ (ins : List Instr) (s : St), (applyAll s peer ins).1.dirty = s.dirty := by
-  intro ins
-  induction ins with
-  | nil => intro s; rfl
-  | cons i r ih => intro s; simp only [applyAll]; rw [ih, applyInstr_dirty]
-
-theorem cmdIcal_dirty (s : St) (p : Nat) (ins : List Instr) :
-    (cmdIcal s p ins).1.dirty =
-      if (cmdIcal s p ins).2.any (·.2) = true ∧ s.dirty.length < 16 then s.dirty ++ [p] else s.dirty := by
-  rw [cmdIcal_eq]
-  simp only []
-  by_cases ha : (applyAll s p ins).2.any (·.2) = true
-  · rw [if_pos ha, addChkpnt_dirty, applyAll_dirty]
-    by_cases hl : s.dirty.length < 16
-    · rw [if_pos hl, if_pos ⟨ha, hl⟩]
-    · rw [if_neg hl, if_neg (fun c => hl c.2)]
-  · rw [if_neg ha, applyAll_dirty, if_neg (fun c => ha c.1)]
-
-theorem chkpntUsers_dirty {s : St} (h : s.dirty.length < 16) : chkpntUsers s = s.dirty := by
-  unfold chkpntUsers
-  rw [if_neg (by omega)]
-
-theorem mem_chkpntUsers_overflow {s : St} (h : 16 ≤ s.dirty.length) (u : Nat) :
-    u ∈ chkpntUsers s ↔ ∃ t ∈ s.tasks, t.inTable = true ∧ t.owner = u := by
-  unfold chkpntUsers
-  rw [if_pos h, List.mem_eraseDups, List.mem_map]
-  constructor
-  · rintro ⟨t, ht, rfl⟩
-    rw [List.mem_filter] at ht
-    exact ⟨t, ht.1, ht.2, rfl⟩
-  · rintro ⟨t, ht, hi, rfl⟩
-    exact ⟨t, List.mem_filter.mpr ⟨ht, hi⟩, rfl⟩
-
 end Echse.Daemon
